@@ -31,3 +31,52 @@ def run_C05(ctx):
 
 
 RUNNERS = {"C05": run_C05}
+
+
+# ------------------------------------------------------------------ slice alphabets (TLA+ set expressions)
+def slice_alphabet(level):
+    """level 0: small (quick), 1: larger."""
+    if level == 0:
+        ats = "{At(i) : i \\in {-3,-1,0,1,2}}"
+        rng = "{Range(a,b,s) : a \\in {NoBound,-1,1}, b \\in {NoBound,-1,2}, s \\in {1,-1,2}} \\cup {Range(NoBound,NoBound,0), Range(0,NoBound,-2), Range(3,0,-1), Range(-3,3,1)}"
+        arrs = "{Arr(s) : s \\in {<<>>, <<0>>, <<1,0>>, <<-1,0,0>>, <<2>>, <<-3>>}}"
+        miss = "{Missing(s) : s \\in {<<NoBound>>, <<0,NoBound>>, <<NoBound,1,-1>>}}"
+        jag = "{Jagged(s) : s \\in {<<>>, << <<>> >>, << <<0>> >>, << <<0>>, <<>> >>, << <<-1,0>>, <<0>> >>, << <<1>>, <<NoBound,0>> >>, << <<>>, <<>>, <<>> >>}}"
+    else:
+        ats = "{At(i) : i \\in -4..3}"
+        rng = "{Range(a,b,s) : a \\in {NoBound,-4,-2,-1,0,1,3}, b \\in {NoBound,-4,-1,0,2,3}, s \\in {1,-1,2,-2,3,0}}"
+        arrs = "{Arr(s) : s \\in UNION {[1..k -> -3..2] : k \\in 0..2}} \\cup {Arr(<<0,0,0>>), Arr(<<1,0,1>>), Arr(<<-1,-2,0>>)}"
+        miss = "{Missing(s) : s \\in UNION {[1..k -> {NoBound,0,1,-1}] : k \\in 1..2}} \\cup {Missing(<<NoBound,1,-1>>)}"
+        jag = ("{Jagged(s) : s \\in UNION {[1..k -> {<<>>, <<0>>, <<-1,0>>, <<1>>, <<NoBound,0>>, <<0,0,0>>}] : k \\in 0..2}}")
+    basic = "(%s \\cup %s \\cup {NewAxis, Ellipsis})" % (ats, rng)
+    adv = "(%s \\cup %s \\cup %s)" % (arrs, miss, jag)
+    return basic, adv, ats, rng, arrs
+
+
+def slice_tuples(level):
+    basic, adv, ats, rng, arrs = slice_alphabet(level)
+    allitems = "(%s \\cup %s)" % (basic, adv)
+    one = "{<<a>> : a \\in %s}" % allitems
+    two = "{<<a, b>> : a \\in %s, b \\in %s}" % (allitems, "(%s \\cup %s)" % (basic, arrs))
+    if level == 0:
+        three = "{<<a, b, c>> : a \\in {At(0), Range(NoBound,NoBound,1), Arr(<<1,0>>)}, b \\in {At(-1), Range(NoBound,NoBound,-1), Arr(<<0>>), Ellipsis}, c \\in {At(0), Range(1,NoBound,1), Arr(<<0,0>>), NewAxis}}"
+    else:
+        small = "{At(0), At(-1), At(2), Range(NoBound,NoBound,1), Range(NoBound,NoBound,-1), Range(1,NoBound,2), Arr(<<1,0>>), Arr(<<0>>), Arr(<<0,0>>), NewAxis, Ellipsis}"
+        three = "{<<a, b, c>> : a \\in %s, b \\in %s, c \\in %s}" % (small, small, small)
+    return "(%s \\cup %s \\cup %s)" % (one, two, three)
+
+
+# ------------------------------------------------------------------ C01
+def run_C01(ctx):
+    ctx.build("opt")
+    lvl = 0 if ctx.quick() else 1
+    nsub = 25 if ctx.quick() else 120
+    consts = session_consts(OpSet='{"slice"}', LeafSet=leafset(2 if ctx.quick() else 3),
+                            SliceTuples="RandomSubset(%d, %s)" % (nsub, slice_tuples(lvl)))
+    ctx.tlc_phase("slice-lists-options", "Session", consts, invariants=["Refines", "Closed"],
+                  require_actions=["SliceOp", "WrapListOffset", "WrapList", "WrapRegular", "WrapIndexedOption"],
+                  seed_tlc=True)
+    return ctx.finish(assumptions=["slice tuples are a seeded random subset (per layout) of the tier's tuple alphabet"])
+
+
+RUNNERS["C01"] = run_C01
